@@ -1035,6 +1035,8 @@ class Executor:
             path = strip_generics(rhs)
             ty, variant = split_variant(path, hint_name)
             return Adt(ty, variant, [])
+        if re.match(r"^[A-Z]\w*$", rhs) and hint_name:
+            return Adt(hint_name, rhs, [])     # unit variant printed without its path (e.g. `Parenthesis`)
         raise Unsupported(f"rvalue in {fn.name}: {rhs}")
 
     def _discriminant(self, v):
